@@ -67,6 +67,8 @@ structure S where
   cu : CU := Tbl.empty
   cuLru : List String := []
   cuCap : Nat := 1
+  /-- the synchronisation pipeline; its custom-filter cache is `cu` (with `cuLru`, `cuCap`) -/
+  sy : Sync := Sync.init
 
 /-- `hashableSubdomains` for hosts under a one-label ICANN suffix: the last four labels, then every
 label suffix with at least two labels. -/
@@ -157,6 +159,18 @@ def cuGet (s : S) (c : Conf) : S × Option (List String) :=
       let r := cu1.step (.get c)
       ({ s with cu := r.1, cuLru := touch lru1 c.id }, r.2)
 
+/-- The token of the first rule (`dom#ver`) that blocks `host`. -/
+def cuTok (o : Option (List String)) (host : String) : String :=
+  match o with
+  | none => "none"
+  | some rules =>
+    match rules.find? (fun r => isSuffixDom host ((r.splitOn "#").headD "")) with
+    | some r => "B:" ++ (r.splitOn "#").headD "" ++ ":" ++ ((r.splitOn "#").getD 1 "")
+    | none => "none"
+
+/-- One step of the pipeline that does not touch the custom-filter cache. -/
+def syStep (s : S) (op : YOp) : S := { s with sy := ({ s.sy with cache := s.cu }.step stampNow op).1 }
+
 def step (s : S) : List String → S × String
   | ["rl", "new", enabled, cap] =>
     ({ s with rl := { engine := fun _ _ => "none", cache := Tbl.empty, enabled := bool! enabled },
@@ -209,6 +223,19 @@ def step (s : S) : List String → S × String
         | some r => "B:" ++ (r.splitOn "#").headD "" ++ ":" ++ ((r.splitOn "#").getD 1 "")
         | none => "none"
     (s1, out)
+  | ["sy", "new", cap] => ({ s with cu := Tbl.empty, cuLru := [], cuCap := nat! cap, sy := Sync.init }, "ok")
+  | "sy" :: "change" :: id :: ver :: dt :: doms =>
+    (syStep s (.change id (doms.map (fun d => d ++ "#" ++ ver)) (nat! dt)), "ok")
+  | ["sy", "sync", full, dt] => (syStep s (.sync (bool! full) (nat! dt)), "ok")
+  | ["sy", "fail"] => (s, "ok")
+  | ["sy", "restart"] => ({ (syStep s .restart) with cu := Tbl.empty, cuLru := [] }, "ok")
+  | ["sy", "q", id, host] =>
+    -- `Sync.step (.query id)` with gcache's LRU order for the custom-filter cache.
+    match s.sy.db id with
+    | some c =>
+      let (s1, o) := cuGet s c
+      (s1, cuTok o host)
+    | none => (s, "no-profile")
   | _ => (s, "bad-op")
 
 def main : IO Unit := loop step {}
